@@ -207,4 +207,21 @@ example : kill pGood .grpc .frozen false true true = ⟨true, true, true, true, 
 -- frozen net/rpc plugin: the dead-peer detection ends the pending Quit with EOF (a "successful" close), then the grace period, then the force kill
 example : kill pGood .netrpc .frozen false true true = ⟨true, true, true, true, false, 42000⟩ := by decide
 
+/-- **Overlapping Kills keep the grace period**: a plugin that exits on its own shortly after the shutdown request is not
+force-killed and finishes its clean-up also when a second `Kill` begins while the first one is waiting for it —
+whatever closing the closed protocol client again would report. -/
+theorem overlapping_kill_keeps_grace (O : OverlapParams) (hO : O.Good) (P : Params) (hP : P.Good) (proto : Proto)
+    (lost closeAgainOk : Bool) :
+    (overlapped O P proto .exitsFast lost true closeAgainOk).forced = false ∧
+    (overlapped O P proto .exitsFast lost true closeAgainOk).cleanedUp = true := by
+  have hs : O.serialised = true := hO
+  simp only [overlapped, hs, if_true]
+  exact graceful_not_forced P hP proto lost
+
+/-- Witness: not serialised, the second `Kill` finds the client closed, takes the error for a failed graceful shutdown and
+force-kills the plugin in the middle of its clean-up -/
+theorem overlapping_kill_witness :
+    (overlapped ⟨false⟩ ⟨2000, true, true, true, true, true, true, true, true⟩ .grpc .exitsFast false true false).forced = true ∧
+    (overlapped ⟨false⟩ ⟨2000, true, true, true, true, true, true, true, true⟩ .grpc .exitsFast false true false).cleanedUp = false := by decide
+
 end GoPlugin.Props.C04
